@@ -13,6 +13,12 @@ pub fn k3() -> Vec<Vec<u8>> {
     vec![b"c".to_vec(), b"e".to_vec(), b"f".to_vec()]
 }
 
+/// like `k3` but the first key is long enough for its index separator to be shortened ("caa" vs
+/// "e" -> "d"), so targets in the gap between a block's last key and its index key exist
+pub fn k3s() -> Vec<Vec<u8>> {
+    vec![b"caa".to_vec(), b"e".to_vec(), b"f".to_vec()]
+}
+
 pub fn k2() -> Vec<Vec<u8>> {
     vec![b"c".to_vec(), b"e".to_vec()]
 }
@@ -65,6 +71,7 @@ pub fn spec(name: &str, cfg_names: &[&str], keys: Vec<Vec<u8>>, alphabet: Vec<Op
         checks,
         post_flush: false,
         extra: None,
+        extra_param: 0,
         setup: vec![],
     }
 }
@@ -270,7 +277,7 @@ pub fn c01_families(tier: &str) -> Vec<SeqSpec> {
     let mut v = vec![];
     // F-flush: every mutating op followed by a flush
     v.push(spec("F-flush/T300", &["T300"], k3(), a1(), if t { 7 } else { 5 }, READS).flush());
-    v.push(spec("F-flush/T1", &["T1"], k3(), a1(), if t { 6 } else { 4 }, READS).flush());
+    v.push(spec("F-flush/T1", &["T1"], k3s(), a1(), if t { 6 } else { 4 }, READS).flush());
     // F-reopen: reopen with configuration change, ranged compaction, quiesce
     let mut ar = a1();
     ar.extend(reopen_ops(4));
@@ -279,7 +286,7 @@ pub fn c01_families(tier: &str) -> Vec<SeqSpec> {
     v.push(spec("F-reopen", &["T300", "T300n", "T1n", "M2"], k3(), ar.clone(), if t { 5 } else { 3 }, READS).flush());
     v.push(spec("F-reopen/noflush", &["T300n", "T300", "M2n", "T1"], k3(), ar, if t { 5 } else { 3 }, READS).lazy());
     // F-fill: flush by filling the memtable
-    v.push(spec("F-fill/M2", &["M2"], k3(), a1(), if t { 6 } else { 4 }, READS));
+    v.push(spec("F-fill/M2", &["M2"], k3s(), a1(), if t { 6 } else { 4 }, READS));
     v.push(spec("F-fill/M2", &["M2"], k3(), a1(), if t { 6 } else { 4 }, READS).lazy());
     if t {
         v.push(spec("F-fill/M2", &["M2"], k3(), a1(), 6, READS).bgfirst());
@@ -322,6 +329,12 @@ pub fn c10(tier: &str) -> ! {
             f
         })
         .collect();
+    // with live snapshots a compaction keeps several versions of one user key: the bounds of the
+    // output files must cover all of them
+    let mut fams = fams;
+    let t = thorough(tier);
+    fams.insert(1, spec("C10-snap/T300", &["T300"], k2(), a_c03_small(), if t { 7 } else { 5 }, lay).flush());
+    fams.insert(2, spec("C10-snap/T1", &["T1"], k2(), a_c03_small(), if t { 7 } else { 4 }, lay).flush());
     run_families(&mut rep, fams, budget(tier), |c| c.starts_with("C10."));
     finish_common(&mut rep);
     rep.cov("oracle", json!("after every operation (background idle) and every reopen: levels >= 1 sorted and pairwise disjoint in internal-key order, smallest <= largest, metadata bounds equal first/last stored entry, entries sorted, no duplicate file number, NumFilesAtLevel and SSTables text agree with the structured layout"));
@@ -543,5 +556,154 @@ pub fn c11(tier: &str) -> ! {
     finish_common(&mut rep);
     sched_assumptions(&mut rep);
     rep.cov("oracle", json!("sequence part: at every node without live snapshot/iterator, after one reclamation opportunity (flush of the possibly empty memtable, background idle) the three directories hold exactly CURRENT, LOCK, the current manifest, WALs >= the version's WAL number and the tables of the current layout; with a live snapshot/iterator every table of the current layout exists; schedule part: no read of a reader concurrent with compaction + deletion ever touches a removed file (strict unlink)"));
+    rep.finish()
+}
+
+// ------------------------------------------------------------------------------------------------
+// C04: every cursor program of length <= L at every reached layout
+// ------------------------------------------------------------------------------------------------
+
+fn cursor_targets(keys: &[Vec<u8>]) -> Vec<Vec<u8>> {
+    // the keys themselves and a gap key before / between / after them
+    let mut t: Vec<Vec<u8>> = keys.to_vec();
+    t.push(vec![]);
+    for k in keys {
+        let mut g = k.clone();
+        g.push(0x00);
+        t.push(g);
+    }
+    // a target beyond a shortened separator's gap but before the next key
+    t.push(b"cz".to_vec());
+    t.push(vec![0xff, 0xff]);
+    t.sort();
+    t.dedup();
+    t
+}
+
+/// Run every cursor program of length <= `spec.extra_param` over {seek(t), first, last, next,
+/// prev} on a fresh iterator of every view (latest state and each live snapshot) and compare
+/// with a cursor over the sorted model.
+pub fn cursor_extra(w: &mut World, spec: &SeqSpec, shm: &crate::shm::Shm) -> VResult<()> {
+    use raindb::ReadOptions;
+    let len = spec.extra_param;
+    let targets = cursor_targets(&spec.keys);
+    let n_ops = 4 + targets.len();
+    let mut views: Vec<(Option<raindb::Snapshot>, Vec<(Vec<u8>, Vec<u8>)>)> = vec![(None, w.model.iter().map(|(k, v)| (k.clone(), v.clone())).collect())];
+    for (s, m) in w.snaps.iter() {
+        views.push((Some(s.clone()), m.iter().map(|(k, v)| (k.clone(), v.clone())).collect()));
+    }
+    for (vi, (snap, model)) in views.iter().enumerate() {
+        let n = model.len();
+        let total = n_ops.pow(len as u32);
+        let mut prog = vec![0usize; len];
+        for code in 0..total {
+            let mut x = code;
+            for p in prog.iter_mut() {
+                *p = x % n_ops;
+                x /= n_ops;
+            }
+            let it = w
+                .db()
+                .new_iterator(ReadOptions { fill_cache: true, snapshot: snap.clone() })
+                .map_err(|e| Violation::new("iter.err", format!("new_iterator failed: {}", e)))?;
+            let mut it: DbIter = Box::new(it);
+            let mut cur: Option<usize> = None;
+            let mut trace: Vec<String> = vec![];
+            for &op in prog.iter() {
+                match op {
+                    0 => {
+                        it.seek_to_first().map_err(|e| Violation::new("C04.err", format!("seek_to_first failed: {}", e)))?;
+                        cur = if n > 0 { Some(0) } else { None };
+                        trace.push("first".into());
+                    }
+                    1 => {
+                        it.seek_to_last().map_err(|e| Violation::new("C04.err", format!("seek_to_last failed: {}", e)))?;
+                        cur = if n > 0 { Some(n - 1) } else { None };
+                        trace.push("last".into());
+                    }
+                    2 => {
+                        if cur.is_none() {
+                            continue; // next on an invalid iterator is outside the contract
+                        }
+                        it.next();
+                        cur = cur.and_then(|i| if i + 1 < n { Some(i + 1) } else { None });
+                        trace.push("next".into());
+                    }
+                    3 => {
+                        if cur.is_none() {
+                            continue;
+                        }
+                        it.prev();
+                        cur = cur.and_then(|i| if i > 0 { Some(i - 1) } else { None });
+                        trace.push("prev".into());
+                    }
+                    j => {
+                        let t = &targets[j - 4];
+                        it.seek(t).map_err(|e| Violation::new("C04.err", format!("seek failed: {}", e)))?;
+                        cur = model.iter().position(|(k, _)| k >= t);
+                        trace.push(format!("seek({})", esc(t)));
+                    }
+                }
+                shm.add(crate::shm::C_USER, 1);
+                let got = if it.is_valid() { it.current().map(|(k, v)| (k.clone(), v.clone())) } else { None };
+                let want = cur.map(|i| model[i].clone());
+                if got != want {
+                    let sh = |x: &Option<(Vec<u8>, Vec<u8>)>| match x {
+                        Some((k, v)) => format!("{}={}", esc(k), show_val(v)),
+                        None => "invalid".to_string(),
+                    };
+                    return Err(Violation::new(
+                        "C04.cursor",
+                        format!(
+                            "view {} (visible: [{}]): after [{}] the iterator is at {} but a sorted map would be at {}",
+                            if vi == 0 { "latest".to_string() } else { format!("snapshot{}", vi - 1) },
+                            model.iter().map(|(k, v)| format!("{}={}", esc(k), show_val(v))).collect::<Vec<_>>().join(" "),
+                            trace.join(", "),
+                            sh(&got),
+                            sh(&want)
+                        ),
+                    ));
+                }
+            }
+            shm.add(crate::shm::C_USER + 1, 1);
+        }
+    }
+    Ok(())
+}
+
+fn a_c04() -> Vec<Op> {
+    let mut a = a1();
+    a.push(Op::Snap);
+    a
+}
+
+pub fn c04(tier: &str) -> ! {
+    let mut rep = Report::new("C04", tier, "model_checking");
+    let t = thorough(tier);
+    let ck = checks(false, true, false, false, false, false);
+    let mut fams = vec![];
+    let mk = |name: &str, cfg: &str, alphabet: Vec<Op>, depth: usize, len: usize, flush: bool| {
+        let mut s = spec(name, &[cfg], k3s(), alphabet, depth, ck).with_extra(cursor_extra);
+        s.extra_param = len;
+        if flush {
+            s = s.flush();
+        }
+        s
+    };
+    if t {
+        fams.push(mk("C04/T300/d4xL5", "T300", a1(), 4, 5, true));
+        fams.push(mk("C04/T1/d4xL5", "T1", a1(), 4, 5, true));
+        fams.push(mk("C04/T300/d5xL3", "T300", a1(), 5, 3, true));
+        fams.push(mk("C04/T1/d5xL3", "T1", a_c04(), 5, 3, true));
+        fams.push(mk("C04/M2/d5xL3", "M2", a_c04(), 5, 3, false).lazy());
+    } else {
+        fams.push(mk("C04/T300/d4xL3", "T300", a1(), 4, 3, true));
+        fams.push(mk("C04/T1+snap/d3xL3", "T1", a_c04(), 3, 3, true));
+        fams.push(mk("C04/T300+snap/d2xL4", "T300", a_c04(), 2, 4, true));
+        fams.push(mk("C04/M2/d4xL3", "M2", a1(), 4, 3, false).lazy());
+    }
+    run_families(&mut rep, fams, budget(tier), |c| c.starts_with("C04.") || c == "iter.err");
+    finish_common(&mut rep);
+    rep.cov("oracle", json!("at every node: a full forward and backward scan equals the model; and every cursor program of the stated length over {seek(t) for t in keys and gap keys, seek_to_first, seek_to_last, next, prev} (next/prev only while valid) on a fresh iterator of the latest state and of every live snapshot keeps is_valid/key/value equal to a cursor over the sorted model"));
     rep.finish()
 }
